@@ -1401,6 +1401,10 @@ class Interp:
     def truth(self, test, env, fr) -> Optional[bool]:
         if isinstance(test, ast.Constant):
             return bool(test.value)
+        if isinstance(test, ast.Name):
+            alias = self._bool_alias(fr.fi, test.id)
+            if alias is not None:
+                return self.truth(alias, env, fr)
         if isinstance(test, ast.UnaryOp) and isinstance(test.op, ast.Not):
             t = self.truth(test.operand, env, fr)
             return None if t is None else (not t)
@@ -1527,6 +1531,27 @@ class Interp:
             return None
         return None
 
+    def _bool_alias(self, fi, name):
+        """the test expression a local boolean stands for: exactly one `name = <comparison / and / or / not>` in the
+        function, whose operand names are parameters that are never assigned in the function"""
+        cache = getattr(self, "_bool_alias_cache", None)
+        if cache is None:
+            cache = self._bool_alias_cache = {}
+        key = (fi.qualname, name)
+        if key in cache:
+            return cache[key]
+        out = None
+        defs = [n for n in ast.walk(fi.node) if isinstance(n, ast.Name) and n.id == name and isinstance(n.ctx, ast.Store)]
+        asg = [n for n in ast.walk(fi.node) if isinstance(n, ast.Assign) and len(n.targets) == 1 and isinstance(n.targets[0], ast.Name) and n.targets[0].id == name]
+        if len(defs) == 1 and len(asg) == 1 and isinstance(asg[0].value, (ast.Compare, ast.BoolOp, ast.UnaryOp)):
+            params = {a.arg for a in fi.params} | {a.arg for a in fi.node.args.kwonlyargs}
+            stored = {n.id for n in ast.walk(fi.node) if isinstance(n, ast.Name) and isinstance(n.ctx, ast.Store)}
+            used = {n.id for n in ast.walk(asg[0].value) if isinstance(n, ast.Name)}
+            if used and used <= params and not (used & stored) and name not in params:
+                out = asg[0].value
+        cache[key] = out
+        return out
+
     def narrow(self, test, env, branch: bool, fr):
         if env is None:
             return None
@@ -1538,6 +1563,10 @@ class Interp:
                     env = self.narrow(v, env, branch, fr)
             return env
         if isinstance(test, ast.Name):
+            alias = self._bool_alias(fr.fi, test.id)
+            if alias is not None:
+                # flag = order is None and size is None; if flag: ...   (operands are never-reassigned parameters)
+                return self.narrow(alias, env, branch, fr)
             k = env.get(test.id)
             if k is not None:
                 if branch:
